@@ -2,9 +2,9 @@
    sumbool map to OCaml's; Z, positive, N, nat, Q stay the extracted inductive datatypes (no
    Extract Constant / Extract Inductive of our own). *)
 From Coq Require Import ExtrOcamlBasic.
-From Verif Require Import Base C02 C02_check.
+From Verif Require Import Base C02 C02_check C02_sup.
 Extraction Language OCaml.
 Extraction "c02_model.ml"
   Z.add Z.mul Z.opp Z.abs Z.div_eucl Z.sub Z.eqb Z.leb Z.ltb Z.of_nat Z.to_nat
   Base.FILL
-  C02.build_edges C02.face_edges C02.edges C02.n_nodes_per_face C02_check.c02_check.
+  C02.build_edges C02.face_edges C02.edges C02.n_nodes_per_face C02_check.c02_check C02_sup.sup_face_edges.
